@@ -54,6 +54,9 @@ func checkC10(P *Prog, r *Result) {
 	// the schema (a per-schema cache of reflect.StructField keeps the zog tags of the first type validated) - C08's
 	// write-effects rule on the struct node, as C16 adopts it
 	shareRule(P, r, checkC08, "C08/write-effects", func(o Obligation) bool { return strings.Contains(o.Construct, "StructSchema)") }, "C10/key-from-this-calls-destination", 2)
+	// a path is the chain of keys of its own node: every segment pushed is popped on every way out (C07's balance rule;
+	// a recover() around an item whose inner node had pushed its own segment leaves that segment on the stack)
+	shareRule(P, r, checkC07, "C07/balance", nil, "C10/path-stack-balanced", 2)
 	shareRule(P, r, checkC07, "C07/release", func(o Obligation) bool { return strings.Contains(o.Construct, "PathBuilder") }, "C10/path-builder-own", 0)
 	shareRule(P, r, checkC07, "C07/reinit", func(o Obligation) bool { return strings.Contains(o.Construct, "PathBuilder") }, "C10/path-builder-clean", 0)
 	_ = R
